@@ -217,6 +217,14 @@ func (fc *FuncCtx) execInstr(fr *Frame, st *State, ins ssa.Instruction) {
 		fr.regs[x] = Val{T: ref}
 	case *ssa.Store:
 		addr := fc.value(fr, x.Addr)
+		if cst, isC := x.Val.(*ssa.Const); isC && cst.Value == nil && addr.LV == nil && addr.T != nil {
+			// *p = T{} : store of the zero value of a struct type (composite literal without the listed fields yet)
+			if _, isStruct := cst.Type().Underlying().(*types.Struct); isStruct {
+				fc.addObl(fr, st, "nil", fc.srcOf(x), Neq(addr.T, IntLit(0)), x.Pos(), "nil pointer dereference")
+				fc.zeroStruct(st, addr.T, cst.Type())
+				return
+			}
+		}
 		val := fc.value(fr, x.Val)
 		if addr.LV == nil {
 			// store of a whole struct value (a tuple of its scalar fields) into a struct object: field by field
@@ -582,12 +590,21 @@ func (fc *FuncCtx) unop(fr *Frame, st *State, x *ssa.UnOp) {
 		}
 		fr.regs[x] = Val{T: Sub(IntLit(-1), v)}
 	case token.ARROW:
-		// channel receive: an arbitrary value of the element type; ghost counter
-		fc.ghostAdd(st, "recv", 1)
+		// channel receive: an arbitrary value of the element type; the ghost counter `recv` counts the
+		// values actually received (a `v, ok := <-c` that reports ok == false — channel closed and
+		// drained, as at the end of a `for range c` — receives nothing)
 		elT := x.X.Type().Underlying().(*types.Chan).Elem()
+		if !x.CommaOk {
+			fc.ghostAdd(st, "recv", 1)
+		}
 		if x.CommaOk {
 			v := fc.freshVal("recv", x.Type().(*types.Tuple).At(0).Type(), st)
 			ok := Fresh("recvok", SBool)
+			cur, has := st.ghost["recv"]
+			if !has {
+				cur = Var("ghost.recv@0", SInt)
+			}
+			st.ghost["recv"] = Add(cur, Ite(ok, IntLit(1), IntLit(0)))
 			// the channel invariant holds for values actually received
 			st2 := st.clone()
 			st2.pc = True
